@@ -484,10 +484,29 @@ func c44ReplyKind(kind, res string, e *jsonrpc2.Error) string {
 
 // c44Workers hands one server subprocess to each vk worker.
 type c44Workers struct {
-	c  *vk.Ctx
-	mu sync.Mutex
-	m  map[*vk.Local]*c44Client
-	n  int
+	c       *vk.Ctx
+	mu      sync.Mutex
+	m       map[*vk.Local]*c44Client
+	n       int
+	crashes int
+}
+
+// giveUp stops the server exploration (recorded as not exhaustive) when the
+// time budget is used up or the server has already crashed many times (every
+// crash is reported; restarting the server thousands of times adds nothing).
+func (w *c44Workers) giveUp() bool {
+	w.mu.Lock()
+	n := w.crashes
+	w.mu.Unlock()
+	if n >= 20 {
+		w.c.Capped("server exploration stopped after 20 server crashes")
+		return true
+	}
+	if w.c.TimeUp() {
+		w.c.Capped("time budget reached during the server exploration")
+		return true
+	}
+	return false
 }
 
 func (w *c44Workers) get(l *vk.Local) *c44Client {
@@ -515,6 +534,7 @@ func (w *c44Workers) crashed(l *vk.Local, cl *c44Client, what string) {
 	w.c.Violate("server-crash:"+site, fmt.Sprintf("%s: no reply, %s", what, detail), what)
 	w.mu.Lock()
 	w.m[l] = nil
+	w.crashes++
 	w.mu.Unlock()
 }
 
@@ -553,6 +573,9 @@ func c44DocSweep(c *vk.Ctx, w *c44Workers, maxToks int) {
 	var notJudged, requests int64
 	var mu sync.Mutex
 	c.Parallel(len(docs), func(l *vk.Local, i int) {
+		if w.giveUp() {
+			return
+		}
 		text := docs[i]
 		cl := w.get(l)
 		l.Begin(fmt.Sprintf("B1 document %q", text))
@@ -575,10 +598,15 @@ func c44DocSweep(c *vk.Ctx, w *c44Workers, maxToks int) {
 			c.Violate(k, "didOpen: "+m, text)
 		}
 		lines := c44Lines(text)
-		maxU := c44MaxUnits(text, lines)
 		kinds := map[string]bool{}
-		for ln := 0; ln <= len(lines)+1; ln++ {
-			for ch := 0; ch <= maxU+2; ch++ {
+		// grid: every line and one line past the last; on each line every
+		// character offset up to two past its end
+		for ln := 0; ln <= len(lines); ln++ {
+			lineU := 0
+			if ln < len(lines) {
+				lineU = c44Units(text[lines[ln].start:lines[ln].end])
+			}
+			for ch := 0; ch <= lineU+2; ch++ {
 				pos := lsp.Position{Line: ln, Character: ch}
 				for _, kind := range []string{"hover", "completion"} {
 					nreq++
@@ -692,6 +720,9 @@ func c44SeqSweep(c *vk.Ctx, w *c44Workers, maxLen int) {
 	var notJudged int64
 	var mu sync.Mutex
 	c.Parallel(total, func(l *vk.Local, i int) {
+		if w.giveUp() {
+			return
+		}
 		k := 0
 		for offsets[k+1] <= i {
 			k++
@@ -787,7 +818,7 @@ func TestVerifC44(t *testing.T) {
 		nB1 := vk.Pick(c, 3, 4)
 		nB2 := vk.Pick(c, 3, 4)
 		c.Rule(fmt.Sprintf("A: every document of <=%d symbols over %q (each string once), every byte offset and every position (line <= lines+1, char <= longest line+2); class = (character/line-ending kinds present, number of lines, longest line in UTF-16 units). "+
-			"B1: every document of <=%d tokens over %q opened on the server subprogram, hover and completion at every grid position; class = (kinds present, number and first message of diagnostics, set of reply kinds). "+
+			"B1: every document of <=%d tokens over %q opened on the server subprogram, hover and completion at every position (line <= lines+1, char <= that line's length+2); class = (kinds present, number and first message of diagnostics, set of reply kinds). "+
 			"B2: every sequence of <=%d operations over didOpen/didChange of %q, hover/completion at %v and hover/completion on a never-opened URI; class = per-step (operation, position kind, reply kind)",
 			nA, c44Syms, nB1, c44Toks, nB2, c44SeqDocs, c44SeqPos))
 		c.Assume(
@@ -812,7 +843,7 @@ func TestVerifC44(t *testing.T) {
 				counts[k] += v
 			}
 			mu.Unlock()
-			if len(idx) == 4 && idx[0] == 2 && idx[1] == 5 {
+			if len(idx) == 4 && idx[0] == 2 && idx[1] == 5 && idx[2] == 1 && idx[3]%3 == 0 {
 				c.Sample(s)
 			}
 		})
